@@ -137,3 +137,60 @@ def near(x, xs, band):
     for s in xs:
         m |= np.abs(x - s) <= band
     return m
+
+
+def refine_kary(pred, lo, hi, rounds=12, m=33, F=None):
+    """boundary of a monotone predicate on [lo, hi] (pred(lo) != pred(hi)) by
+    m-ary search with one vectorised evaluation per round.  pred(xs) -> bool array.
+    returns (lo, hi) bracketing the switch to ~ (hi-lo)/32**rounds."""
+    plo = bool(pred(np.array([lo]))[0])
+    for _ in range(rounds):
+        xs = np.linspace(lo, hi, m)
+        if xs[1] == xs[0]:
+            break
+        v = np.asarray(pred(xs), bool)
+        v[0] = plo
+        idx = np.nonzero(v != plo)[0]
+        if len(idx) == 0:
+            lo = xs[-2]
+            continue
+        i = idx[0]
+        lo, hi = xs[i - 1], xs[i]
+    return lo, hi
+
+
+def wave_structure(F, t, a, b, n=2001, names=("rho", "u", "p", "e"), flat_tol=1e-11, jump_thresh=1e-7):
+    """Wave structure of a piecewise smooth profile at time t from the fields
+    alone: list of segments [('const'|'vary', x_lo, x_hi)] and discontinuities.
+    A discontinuity is a step that does not shrink under refinement."""
+    x = np.linspace(a, b, n)
+    f = F(x, t)
+    keys = [k for k in names if k in f]
+    scale = {k: max(np.nanmax(np.abs(f[k])), 1e-300) for k in keys}
+
+    def dist(fa, i, fb, j):
+        return max(abs(fa[k][i] - fb[k][j]) / scale[k] for k in keys)
+
+    steps = np.array([dist(f, i, f, i + 1) for i in range(n - 1)])
+    vary = steps > flat_tol
+    jumps = []
+    i = 0
+    # isolated steps that survive refinement are discontinuities
+    cand = [i for i in range(n - 1) if steps[i] > jump_thresh]
+    isjump = np.zeros(n - 1, bool)
+    for i in cand:
+        lo, hi = x[i], x[i + 1]
+        s0 = steps[i]
+        for _ in range(10):
+            xs = np.linspace(lo, hi, 33)
+            if xs[1] == xs[0]:
+                break
+            g = F(xs, t)
+            st = np.array([dist(g, j, g, j + 1) for j in range(32)])
+            j = int(np.argmax(st))
+            lo, hi = xs[j], xs[j + 1]
+            s1 = st[j]
+        if s1 > 0.5 * s0 and s1 > jump_thresh:
+            jumps.append(0.5 * (lo + hi))
+            isjump[i] = True
+    return x, f, steps, vary, isjump, jumps, scale
